@@ -19,8 +19,13 @@ META = {
         "parked on a wake source the backend holds as armed (WAIT/CALLBACK/CHAINED_INVOKE STARTED, STEP PENDING) or "
         "already fired; no non-orphan user function that was already running when the last other branch finished/parked "
         "is still executing; driven by a backend that fires timers and delivers events the execution reaches SUCCEEDED/"
-        "FAILED within the program-derived invocation bound; no invocation ends in deadlock or beyond the virtual-time "
-        "cap (400 s, generated in-invocation delays are <= 20 s). Non-trivial = a PENDING return with >=2 branches parked "
+        "FAILED within the program-derived invocation bound; no invocation ends in deadlock, or beyond the virtual-time "
+        "cap (400 s; generated in-invocation delays are <= 20 s) without a record accepted in its last 40 %, or at the step cap "
+        "with virtual time standing still (spinning without blocking); a map/parallel call never suspends to its caller while one "
+        "of its branch bodies is executing, and none of its branches is started afterwards; a branch parked on an external "
+        "party only is not run again while that operation is outstanding. Extra stage: LinePreempt sweeps (plain and with "
+        "the preempted task descheduled for 0.3 s) over executor.py for a branch that re-parks on an already-due resume "
+        "time (backend timers lag 0.5 / 2 s) next to a finishing sibling, at top level and inside an outer map. Non-trivial = a PENDING return with >=2 branches parked "
         "on different kinds of wake source, or a branch body re-entered within one invocation (timer resubmission); "
         "distinct = (program shape, invocation outcomes, decision-trace hash of the first invocation)."
     ),
